@@ -1,5 +1,6 @@
 import RsModel.Lemmas.AttrConcat
 import RsModel.Lemmas.HasText
+import RsModel.Lemmas.EqViews
 /-!
 # Name-level attribution of whole trees (C06 / C13)
 
@@ -106,7 +107,8 @@ def Src.WD (cons : Text → Option Text) (c : Bool) : Src → Prop
   | .sms t name map origSrc inner remove =>
     ∀ σ, WellDecl cons emptyS emptyN ((Src.sms t name map origSrc inner remove).stream ⟨c, false⟩ σ).1.evs
   | .concat cs => SrcList.WD cons c cs
-  | .replace _ _ => False
+  | .replace inner rs =>
+    inner.NoCached ∧ ∀ σ, WellDecl cons emptyS emptyN ((Src.replace inner rs).stream ⟨c, false⟩ σ).1.evs
   | .cached _ _ => False
 def SrcList.WD (cons : Text → Option Text) (c : Bool) : SrcList → Prop
   | .nil => True
@@ -147,7 +149,7 @@ theorem Src.stream_wd (cons : Text → Option Text) (c : Bool) : ∀ (s : Src), 
       rcases hx with rfl | hx
       · exact ⟨Src.stream_wd cons c s h.1 σ, Src.stream_tl s c σ⟩
       · exact ⟨SrcList.streams_wd cons c (.cons s2 rest2) h.2 _ x hx, SrcList.streams_mem_tl _ c _ x hx⟩
-  | .replace _ _, h, _ => h.elim
+  | .replace _ _, h, σ => h.2 σ
   | .cached _ _, h, _ => h.elim
 theorem SrcList.streams_wd (cons : Text → Option Text) (c : Bool) : ∀ (l : SrcList), SrcList.WD cons c l → ∀ σ,
     ∀ r ∈ (l.streams ⟨c, false⟩ σ).1, WellDecl cons emptyS emptyN r.evs
